@@ -450,3 +450,43 @@ func c12ResponseVerdictIsTheServers(ctx *core.Ctx, r *RT, rule string) {
 		ctx.Unresolved(rule, "RESPONSE_TOO_LARGE", "no construction of the RESPONSE_TOO_LARGE transport exception found")
 	}
 }
+
+// c08NoBlanketRemoval — C08.R12. A grammar action that strips a keyword from
+// the text its rule matched (`prefix a.b.{c}` → `a.b.{c}`) removes it where the
+// grammar put it: at the start (TrimPrefix) or the end (TrimSuffix). Removing
+// every occurrence of the keyword's letters (strings.Replace(text, kw, "", -1),
+// ReplaceAll) also eats them inside identifiers: the prefix
+// `app.prefixes.{tenant}` becomes `app.es.{tenant}` in the model and in every
+// generated topic.
+func c08NoBlanketRemoval(ctx *core.Ctx, cc *CC, rule string) {
+	ctx.Rule(rule, "the parser removes keywords from matched text by position only: no strings.Replace/ReplaceAll with an empty replacement removes every occurrence", 1)
+	pp := cc.Pkg("parser")
+	n := 0
+	for _, fn := range cc.Fns {
+		if fn.Pkg != pp {
+			continue
+		}
+		for _, c := range ssax.Calls(fn) {
+			full := c.FullName()
+			if full != "strings.Replace" && full != "strings.ReplaceAll" {
+				continue
+			}
+			a := c.Args()
+			repl, isK := ssax.Strip(a[2]).(*ssa.Const)
+			if !isK || repl.Value == nil || repl.Value.ExactString() != `""` {
+				continue
+			}
+			if full == "strings.Replace" {
+				if k, isN := ssax.ConstInt(a[3]); isN && k == 1 {
+					continue
+				}
+			}
+			n++
+			ctx.Violate(rule, QName(fn)+" › "+c.ShortName()+" removes every occurrence", cc.IPos(c.Instr.(ssa.Instruction)),
+				"a piece of text (a keyword such as `prefix`) is deleted wherever it occurs in what the rule matched, not only where the grammar put it: identifiers that contain those letters (`prefixes`, `{prefixId}`) are mutilated in the model, and publisher and subscriber of every language use a topic the IDL never declared")
+		}
+	}
+	if n == 0 {
+		ctx.Discharge(rule, "parser › no blanket removal of text", "", "no strings.Replace/ReplaceAll with an empty replacement and an unbounded count in package parser")
+	}
+}
